@@ -268,7 +268,8 @@ extern "C" void sp_ldlt(int m, int n, const double * j, const double * d, const 
 
 def run_sparse_standin(tier="quick", seed=0):
     """BOUNDED stand-in for the sparse code path (SimplicialLDLT is not extracted): normal equations, dense/sparse agreement and dphi
-    (finite differences) on random sparse patterns (arrow, banded, random density), sizes up to 12 x 9."""
+    (finite differences) on random sparse patterns (arrow, banded, random density), sizes up to 12 x 9, every fourth problem in small units
+    (J scaled by 2^-20 .. 2^-30, d = column norms)."""
     import ctypes
     import math
     from irsx import build
@@ -295,6 +296,12 @@ def run_sparse_standin(tier="quick", seed=0):
                 if keep:
                     Jv[i][c] = rng.uniform(-2, 2)
         d = [10 ** rng.uniform(-1, 1) for _ in range(n)]
+        if it % 4 == 3:
+            # Jacobian in small units (exact power-of-two scaling) with the column scaling minimize() uses (column norms): the entries
+            # of J'J are ~1e-15, far below any absolute threshold, while the problem is as well conditioned as the unscaled one
+            sc = 2.0 ** -rng.choice([20, 24, 30])
+            Jv = [[v * sc for v in row] for row in Jv]
+            d = [math.sqrt(sum(Jv[i][c] ** 2 for i in range(m))) or sc for c in range(n)]
         r = [rng.uniform(-2, 2) for _ in range(m)]
         lam = 10 ** rng.uniform(-2, 2)
 
